@@ -3,7 +3,7 @@
     table covers the tree at every depth. *)
 From ClapModel Require Import Base.Bytes Complete.AotTree Complete.TextTree Complete.BashModel Complete.AotProofs
   Complete.BashProofs Escape.EscapeModel Escape.ShellLex Escape.EscapeProofs Complete.PathTable Complete.PathTableLex
-  Complete.ElvishModel.
+  Complete.PathTableBlocks Complete.BuildTexts Complete.ElvishModel.
 From Coq Require Import String.
 Open Scope N_scope.
 Open Scope list_scope.
@@ -406,3 +406,47 @@ Proof.
   eexists. eexists. split; [vm_compute; reflexivity|]. split; [vm_compute; reflexivity|].
   vm_compute. discriminate.
 Qed.
+
+(** ---- [clap_complete::aot::generate] as a whole; the lookup ---- *)
+(** total: whenever [Command::build] succeeds the generator writes a script *)
+Theorem elvish_generate_total c bin b t :
+  build (set_bin_name c bin) = Some b -> exists s, generate_elvish c t bin = Some s.
+Proof.
+  intros Hb. unfold generate_elvish. rewrite Hb. destruct (tbuild_total _ b t Hb) as [tb ->].
+  apply (generate_total _ b tb Hb). rewrite (build_root_bin c bin b Hb). discriminate.
+Qed.
+
+(** C17 with the class on the SOURCE tree: [build] keeps a tree in the class *)
+Theorem elvish_generate_structure_src c bin t1 t2 s1 s2 :
+  cmd_plain el_plain c = true -> el_plainl bin = true ->
+  generate_elvish c t1 bin = Some s1 -> generate_elvish c t2 bin = Some s2 ->
+  skeleton (events el_step EB s1) = skeleton (events el_step EB s2) /\
+  final el_step EB s1 = final el_step EB s2.
+Proof.
+  intros Hc Hbin G1 G2.
+  destruct (build (set_bin_name c bin)) as [b|] eqn:Hb;
+    [|unfold generate_elvish in G1; rewrite Hb in G1; discriminate].
+  apply (elvish_generate_structure c bin t1 t2 b s1 s2 Hb); [|exact G1|exact G2].
+  apply (cp_build el_plain eq_refl eq_refl eq_refl eq_refl _ b Hb). apply cp_set_bin_name; assumption.
+Qed.
+
+(** the block of a path is what the shell finds: the script is the blocks rendered in order; the block
+    keyed by the path is among them; every block with that key has the node's entries *)
+Theorem elvish_lookup c t bin ws ns n :
+  c_bin c = Some bin -> bin <> [] -> bins_built c -> siblings_ok c -> cmd_plain no_semi c = true ->
+  reach c ws ns n ->
+  exists tn,
+    generate c t = Some (render bin (List.concat (map (render_block el_fmt) (blocks el_fmt c t [])))) /\
+    In (path_key bin ws, entries el_fmt n tn) (blocks el_fmt c t []) /\
+    (forall e, In (path_key bin ws, e) (blocks el_fmt c t []) -> e = entries el_fmt n tn) /\
+    lookup_block (blocks el_fmt c t []) (path_key bin ws) = Some (path_key bin ws, entries el_fmt n tn).
+Proof.
+  intros Hbin Hne Hb Hs Hp Hr.
+  destruct (table_lookup el_fmt c t bin ws ns n Hbin Hne Hs Hp Hr) as (tn & Hin & Hu).
+  exists tn. split; [rewrite <- gi_blocks; apply generate_spec; assumption|].
+  split; [exact Hin|]. split; [exact Hu|]. exact (lookup_first _ _ _ Hin Hu).
+Qed.
+
+(** the hypotheses of [elvish_generate_structure_src] hold for the example tree (its scripts: [elvish_structure_nonvacuous]) *)
+Example elvish_src_hyps : cmd_plain el_plain ex_tree = true /\ el_plainl [112] = true.
+Proof. split; vm_compute; reflexivity. Qed.
